@@ -680,6 +680,83 @@ def gen_timeline_tick(cls):
 
 
 
+# ---- Track.start, Track.update ---------------------------------------------------------------------------------------------------
+START_NORMALISE = ["if events is None:\n    events = {}", "if isinstance(events, dict):\n    events = PDict(events)"]
+LATENCY_TEST = "self.output_device is not None and self.output_device.added_latency_seconds > 0.0"
+LATENCY_BEATS = "self.timeline.seconds_to_beats(self.output_device.added_latency_seconds)"
+START_CLOSURE = "lambda: self.start(events, interpolate=interpolate)"
+
+
+def gen_track_start(cls):
+    fn = method(cls, "start")
+    forbid(fn, BAD + (ast.Try, ast.Lambda, ast.While, ast.For, ast.Return, ast.Raise))
+    a = fn.args
+    if [x.arg for x in a.args] != ["self", "events", "interpolate"] or [ast.unparse(d) for d in a.defaults] != ["None"] or a.vararg or a.kwarg or a.kwonlyargs:
+        raise Reject("Track.start: unexpected signature")
+    body = body_of(fn)
+    # the model receives the events as an already built stream: the normalisation of the argument is not translated
+    if [ast.unparse(x) for x in body[:2]] != START_NORMALISE:
+        raise Reject("Track.start: the normalisation of `events` is not the one the translation skips")
+    b = TBlock(fn, reserved=RESERVED - {"c"})
+    # interpolate: None (the model is the non-interpolating track)
+    term = b.run(body[2:], {"self": ("track", "self"), "events": ("stream", "events"), "interpolate": ("none", "None")}, lambda e: e["self"][1])
+    return term, lines_of(fn)
+
+
+class UpdateBlock(TBlock):
+    """Track.update: result (timeline, self); `self.timeline` is the record `timeline`"""
+
+    def special_expr(self, n, env):
+        src = ast.unparse(n)
+        if src in ("self.timeline.defaults.quantize", "self.timeline.defaults.delay"):
+            return ("int", "(%s %s)" % ("def_q" if src.endswith("quantize") else "def_d", env["timeline"][1]))
+        if src == LATENCY_TEST:
+            return ("bool", "(0 <? latency cfg)")
+        if src == LATENCY_BEATS:
+            return ("int", "(latency cfg)")
+        if isinstance(n, ast.Compare) and len(n.ops) == 1 and isinstance(n.ops[0], ast.Eq) and is_zero(n.comparators[0]):
+            a = self.ex(n.left, env)
+            if a[0] == "int":
+                return ("bool", "(%s =? 0)" % a[1])
+        return TBlock.special_expr(self, n, env)
+
+    def classify(self, st, env):
+        src = ast.unparse(st)
+        if src == "self.start(events, interpolate=interpolate)":
+            return ["self"], lambda env, go: self.rebind("self", "track", "(src_track_start %s %s)" % (env["self"][1], env["events"][1]), env, go)
+        if isinstance(st, ast.Expr) and isinstance(st.value, ast.Call) and ast.unparse(st.value.func) == "self.timeline._schedule_action":
+            c = st.value
+            kw = {k.arg: k.value for k in c.keywords}
+            if c.args or sorted(kw) != ["delay", "function", "quantize"] or ast.unparse(kw["function"]) != START_CLOSURE:
+                raise Reject("call of _schedule_action not understood: " + src)
+
+            def render(env, go):
+                q, d = self.ex(kw["quantize"], env), self.ex(kw["delay"], env)
+                if q[0] != "int" or d[0] != "int" or env.get("interpolate", ("?",))[0] != "none":
+                    raise Reject("call of _schedule_action not understood: " + src)
+                tl = env["timeline"][1]
+                # Timeline._schedule_action appends Action(<scheduled time>, function): the time is Model.v sched_time (the source's
+                # expression is tied to it in Sched/SchedTimeSrc.v); the closure `lambda: self.start(events, ...)` is AStart id events
+                return self.rebind("timeline", "tl", "(w_actions %s ((actions %s) ++ [AStart (sched_time (now %s) %s %s) (t_id %s) %s]))"
+                                   % (tl, tl, tl, q[1], d[1], env["self"][1], env["events"][1]), env, go)
+            return ["timeline"], render
+        return TBlock.classify(self, st, env)
+
+
+def gen_track_update(cls):
+    fn = method(cls, "update")
+    forbid(fn, BAD + (ast.Try, ast.While, ast.For, ast.Return, ast.Raise))
+    a = fn.args
+    if [x.arg for x in a.args] != ["self", "events", "quantize", "delay", "interpolate", "count"] or [ast.unparse(d) for d in a.defaults] != ["None"] * 4 \
+            or a.vararg or a.kwarg or a.kwonlyargs:
+        raise Reject("Track.update: unexpected signature")
+    b = UpdateBlock(fn, reserved=(RESERVED | {"timeline", "latency", "def_q", "def_d", "sched_time", "src_track_start"}) - {"c"})
+    env = {"self": ("track", "self"), "timeline": ("tl", "timeline"), "events": ("stream", "events"), "quantize": ("optint", "quantize"),
+           "delay": ("optint", "delay"), "interpolate": ("none", "None"), "count": ("optint", "count")}
+    term = b.run(body_of(fn), env, lambda e: "(%s, %s)" % (e["timeline"][1], e["self"][1]))
+    return term, lines_of(fn)
+
+
 # ---- Track.perform_event: guards, dispatch, control / program change -----------------------------------------------------------------
 EVENT = {"active": ("e_active", "bool"), "duration": ("e_dur", "time")}
 FIELDS["event"] = EVENT
@@ -957,6 +1034,11 @@ def main(out_path):
     aux, term, lines = gen_timeline_tick(tl)
     defs.append("(* Timeline.tick, timeline.py lines %s: the bodies of its three loops (note-offs, actions, tracks) *)\n%s" % (lines, aux))
     defs.append("(* Timeline.tick, timeline.py lines %s *)\nDefinition src_timeline_tick (cfg : config) (self : timeline_t) : timeline_t * list call * opres :=\n  %s." % (lines, term))
+    term, lines = gen_track_start(track)
+    defs.append("(* Track.start, track.py lines %s (events: an already built stream; interpolate=None) *)\nDefinition src_track_start (self : track_t) (events : stream) : track_t :=\n  %s." % (lines, term))
+    term, lines = gen_track_update(track)
+    defs.append("(* Track.update, track.py lines %s (times as exact integers; interpolate=None) *)\n"
+                "Definition src_track_update (cfg : config) (timeline : timeline_t) (self : track_t) (events : stream) (quantize delay count : option Z) : timeline_t * track_t :=\n  %s." % (lines, term))
     term, lines = gen_perform_event(track)
     defs.append("(* Track.perform_event, track.py lines %s: the guards, the dispatch on event.type, the control and program-change branches *)\n"
                 "Definition src_track_perform_event (fail : option nat) (nowT : Z) (self : track_t) (event : event) (n : nat) : track_t * list call * nat * performed :=\n  %s." % (lines, term))
